@@ -77,7 +77,9 @@ func convertTrace(evs []verif.Event, w *hlib.NDJSON, report *Report) int {
 		case "TPutAck":
 			put(map[string]interface{}{"ev": e.Ev, "t": S(e, "t"), "ids": strs(e, "ids"), "bytes": I(e, "bytes")})
 		case "TTake":
-			put(map[string]interface{}{"ev": e.Ev, "t": S(e, "t"), "id": S(e, "id"), "chans": strs(e, "chans")})
+			put(map[string]interface{}{"ev": e.Ev, "t": S(e, "t"), "id": S(e, "id"), "chans": strs(e, "chans"), "def": dus(I(e, "def"))})
+		case "QSDone":
+			put(map[string]interface{}{"ev": e.Ev, "c": S(e, "c"), "t": us(I(e, "t"))})
 		case "TCopied":
 			put(map[string]interface{}{"ev": e.Ev, "t": S(e, "t"), "id": S(e, "id")})
 		case "CopyFail":
